@@ -26,11 +26,13 @@ package configuration
 //@ pure sensorOK(cfg *Configuration, i int) bool = one3(cfg.Sensors[i].HwMon != nil, cfg.Sensors[i].File != nil, cfg.Sensors[i].Cmd != nil) && (cfg.Sensors[i].HwMon != nil ==> cfg.Sensors[i].HwMon.Index >= 1) && (forall j int :: 0 <= j && j < i ==> cfg.Sensors[j].ID != cfg.Sensors[i].ID)
 
 //@ func isSensorConfigInUse
+//@   params (config, curves)
 //@   modifies nothing
 //@   loop 1 "for _, curveConfig := range curves"
 //@     invariant -1 <= rangeindex
 
 //@ func validateSensors
+//@   params (config)
 //@   props C11
 //@   requires config != nil
 //@   ensures[C11.sensors] result == nil ==> forall i int :: 0 <= i && i < len(config.Sensors) ==> sensorOK(config, i)
@@ -48,33 +50,39 @@ package configuration
 //@ pure curveEvaluable(cfg *Configuration, i int) bool = (cfg.Curves[i].Function != nil ==> len(cfg.Curves[i].Function.Curves) >= 1) && (cfg.Curves[i].Linear != nil && cfg.Curves[i].Linear.Steps != nil ==> len(cfg.Curves[i].Linear.Steps) >= 1)
 
 //@ func curveIdExists
+//@   params (curveId, config)
 //@   ensures result == hasCurve(config, curveId)
 //@   requires config != nil
 //@   modifies nothing
 //@   loop 1 "for _, curve := range config.Curves"
 //@     invariant -1 <= rangeindex && forall k int :: 0 <= k && k <= rangeindex && k < len(config.Curves) ==> config.Curves[k].ID != curveId
 //@ func sensorIdExists
+//@   params (sensorId, config)
 //@   ensures result == hasSensor(config, sensorId)
 //@   requires config != nil
 //@   modifies nothing
 //@   loop 1 "for _, sensor := range config.Sensors"
 //@     invariant -1 <= rangeindex && forall k int :: 0 <= k && k <= rangeindex && k < len(config.Sensors) ==> config.Sensors[k].ID != sensorId
 //@ func github.com/markusressel/fan2go/internal/util.ContainsString
+//@   params (s, e)
 //@   modifies nothing
 //@   loop 1 "for _, a := range s"
 //@     invariant -1 <= rangeindex
 //@ func isCurveConfigInUse
+//@   params (config, curves, fans)
 //@   modifies nothing
 //@   loop 1 "for _, curveConfig := range curves"
 //@     invariant -1 <= rangeindex
 //@   loop 2 "for _, fanConfig := range fans"
 //@     invariant -1 <= rangeindex
 //@ func validateNoLoops
+//@   params (graph)
 //@   modifies nothing
 //@   loop 1 "for _, items := range output"
 //@     invariant -1 <= rangeindex
 
 //@ func validateCurves
+//@   params (config)
 //@   props C11
 //@   heapclosed
 //@   requires config != nil
@@ -110,6 +118,7 @@ package configuration
 //@ pure fanLoopOK(cfg *Configuration, i int) bool = cfg.Fans[i].ControlAlgorithm != nil && cfg.Fans[i].ControlLoop == nil ==> cfg.Fans[i].ControlAlgorithm.Direct != nil || cfg.Fans[i].ControlAlgorithm.Pid != nil
 
 //@ func validateFans
+//@   params (config)
 //@   props C11
 //@   heapclosed
 //@   requires config != nil
@@ -134,6 +143,7 @@ package configuration
 //@     invariant -1 <= rangeindex
 
 //@ func validateConfig
+//@   params (config, path)
 //@   props C11
 //@   requires config != nil
 //@   ensures[C11.accepted] result == nil ==> (forall i int :: 0 <= i && i < len(config.Sensors) ==> sensorOK(config, i)) && (forall i int :: 0 <= i && i < len(config.Curves) ==> curveShapeOK(config, i) && curveRefsOK(config, i)) && (forall i int :: 0 <= i && i < len(config.Fans) ==> fanShapeOK(config, i) && fanBackendOK(config, i))
